@@ -40,7 +40,7 @@ Definition array_split {A} (l : list A) (k : nat) : list (list A) :=
 (* outcomes *)
 
 Inductive pfail : Type :=
-| EmptyArgs        (* ProgressBar(maxval=0).start(): ValueError *)
+| EmptyArgs        (* ProgressBar(maxval=0).start(): ValueError - only in the code before fix ac3e25b *)
 | BadNcpu          (* np.array_split(..., ncpu < 1): ValueError *)
 | TaskRaised       (* func raised in the master process *)
 | ChildDied        (* RuntimeError: Child process did not return with 0 *)
@@ -341,7 +341,7 @@ Context {A R : Type}.
 Definition par_with {Rr : Type} (nargs : nat) (ncpu : Z)
     (single : res (list Rr)) (chunk_res : nat -> nat -> res (list Rr))
     (sched : list action) : option (outcome Rr) :=
-  if (nargs =? 0)%nat then Some (Fail EmptyArgs)
+  if par_empty (Z.of_nat nargs) then Some (Done [])       (* if len(args_list) == 0: return [] *)
   else if par_single ncpu then
     Some (match single with Ok r => Done r | Err _ => Fail TaskRaised end)
   else if (ncpu <? 1)%Z then Some (Fail BadNcpu)
@@ -358,6 +358,13 @@ Definition par_with {Rr : Type} (nargs : nat) (ncpu : Z)
           | Run _ _ => None
           end
       end.
+
+(* before fix ac3e25b: the progress bar was created first and raised for 0 tasks *)
+Definition par_with_legacy_empty {Rr : Type} (nargs : nat) (ncpu : Z)
+    (single : res (list Rr)) (chunk_res : nat -> nat -> res (list Rr))
+    (sched : list action) : option (outcome Rr) :=
+  if (nargs =? 0)%nat then Some (Fail EmptyArgs)
+  else par_with nargs ncpu single chunk_res sched.
 
 Definition chunk {B} (args : list B) (k pid : nat) : list B :=
   nth pid (array_split args k) [].
